@@ -145,8 +145,15 @@ def run_case(case):
     else:
         stack = g.integers(0, np.iinfo(dt).max, size=(C, ns, nr, ncol), dtype=dt,
                            endpoint=True)
+    narrow = set()
+    if dt == np.uint16 and case["vseed"] % 3 == 0 and ns >= 2:
+        # a stack that mixes pixel types: dim sections saved as 8-bit files among 16-bit ones
+        r_ = random.Random(case["vseed"])
+        narrow = set(r_.sample(range(ns), r_.randint(1, ns - 1)))
+        for i in narrow:
+            stack[:, i] &= 0xFF
     top = tempfile.mkdtemp(prefix="c15-")
-    obs = {"conversions": 0, "codes": {code: 1}, "voxels_compared": 0,
+    obs = {"conversions": 0, "stacks_mixing_8_and_16_bit_slices": int(bool(narrow)), "codes": {code: 1}, "voxels_compared": 0,
            "slice_groups": {"fewer": int(ns < depth), "equal": int(ns == depth),
                             "partial_last": int(ns > depth and ns % depth != 0)},
            "more_than_256_slices": int(ns > 256),
@@ -182,7 +189,8 @@ def run_case(case):
                     tifffile.imwrite(os.path.join(p, f"{names[i]}.{fmt}"), stack[ch0, i])
                     continue
                 else:
-                    img = PIL.Image.fromarray(stack[ch0, i])
+                    img = PIL.Image.fromarray(stack[ch0, i].astype(np.uint8)
+                                              if i in narrow else stack[ch0, i])
                 img.save(os.path.join(p, f"{names[i]}.{fmt}"))
             ch0 += 3 if kind_ == "rgb" else 1
         exp, size = expected(np, stack, code)
@@ -286,6 +294,8 @@ def gates(obs, tier):
                                                     ("fewer", "equal", "partial_last")),
         "rgb_and_multi_directory": obs.get("rgb", 0) > 0 and obs.get("multi_dir", 0) > 0,
         "uint16_and_tiff": obs.get("uint16", 0) > 0 and obs.get("tiff", 0) > 0,
+        "stacks_mixing_8_and_16_bit_slices": obs.get(
+            "stacks_mixing_8_and_16_bit_slices", 0) > 5,
         "signed_pixels_with_negative_values": obs.get("signed_pixels_into_other_type", 0) > 20,
         "all_storage_options": len(obs.get("storage", {})) == 5,
         "command_line_runs": obs.get("cli_runs", 0) > 10,
